@@ -268,7 +268,7 @@ impl Prop for C03 {
         };
         let si = match units::si_of(value, unit, false) {
             Ok(s) => s,
-            Err(e) => return fw::fail("unit-table", format!("{q}: {e}")),
+            Err(e) => return crate::units::table_verdict(format!("{q}: {e}")),
         };
         let nontrivial = a != b;
         let int = |n: i64| BigRational::from_integer(BigInt::from(n));
